@@ -58,6 +58,16 @@ def corpus():
                   ("get", bytes.fromhex("10aa"), "meth"), ("del", bytes.fromhex("3550aa"), "meth")]
         out.append({"prune": prune, "writes": writes, "batched_build": False, "m": {w[1]: w[2] for w in writes}, "seed": 11,
                     "long": None, "probes": probes, "all_subsets": True})
+        # two byte-identical SUB-TRIES (extension -> branch -> two hashed leaves) under different root slots: every node of
+        # them is referenced twice; a write through one copy fails at a missing node BELOW the shared nodes and must leave
+        # their reference counts alone; the retry must not dereference them twice
+        W = b"W" * 40
+        writes = [("set", bytes.fromhex("10aa00"), V, "meth"), ("set", bytes.fromhex("10aa01"), W, "meth"),
+                  ("set", bytes.fromhex("20aa00"), V, "meth"), ("set", bytes.fromhex("20aa01"), W, "meth")]
+        probes = [("set", bytes.fromhex("10aa00"), b"X" * 40, "meth"), ("del", bytes.fromhex("20aa01"), "item"),
+                  ("get", bytes.fromhex("20aa00"), "meth"), ("set", bytes.fromhex("10aa02"), b"Y" * 33, "meth")]
+        out.append({"prune": prune, "writes": writes, "batched_build": False, "m": {w[1]: w[2] for w in writes}, "seed": 13,
+                    "long": None, "probes": probes, "all_subsets": True})
     return out
 
 
